@@ -1779,3 +1779,62 @@ mod tests {
         }
     }
 }
+
+/// Verification hooks: add-only wrappers that call the private validation kernels.
+#[cfg(feature = "verif-hooks")]
+pub mod verif {
+    use super::*;
+
+    pub fn set_up_oneway_interface(i: &mut ast::Interface, d: &mut Vec<Diagnostic>) {
+        super::set_up_oneway_interface(i, d)
+    }
+    pub fn resolve_types(
+        a: &mut ast::Aidl,
+        i: &HashSet<String>,
+        dp: &HashSet<String>,
+        def: &HashMap<String, ast::ResolvedItemKind>,
+        d: &mut Vec<Diagnostic>,
+    ) -> HashSet<String> {
+        super::resolve_types(a, i, dp, def, d)
+    }
+    pub fn resolve_type(
+        t: &mut ast::Type,
+        i: &HashSet<String>,
+        dp: &HashSet<String>,
+        def: &HashMap<String, ast::ResolvedItemKind>,
+        d: &mut Vec<Diagnostic>,
+    ) {
+        super::resolve_type(t, i, dp, def, d)
+    }
+    pub fn check_imports<'a>(
+        i: &'a [ast::Import],
+        r: &'a HashSet<String>,
+        def: &'a HashMap<String, ast::ResolvedItemKind>,
+        d: &mut Vec<Diagnostic>,
+    ) -> HashMap<String, &'a ast::Import> {
+        super::check_imports(i, r, def, d)
+    }
+    pub fn check_declared_parcelables(
+        dp: &[ast::Import],
+        i: &HashMap<String, &ast::Import>,
+        r: &HashSet<String>,
+        d: &mut Vec<Diagnostic>,
+    ) {
+        super::check_declared_parcelables(dp, i, r, d)
+    }
+    pub fn check_containers(a: &ast::Aidl, d: &mut Vec<Diagnostic>) {
+        super::check_containers(a, d)
+    }
+    pub fn check_container(t: &ast::Type, d: &mut Vec<Diagnostic>) {
+        super::check_container(t, d)
+    }
+    pub fn check_methods(a: &ast::Aidl, d: &mut Vec<Diagnostic>) {
+        super::check_methods(a, d)
+    }
+    pub fn check_method(m: &ast::Method, d: &mut Vec<Diagnostic>) {
+        super::check_method(m, d)
+    }
+    pub fn check_method_args(m: &ast::Method, d: &mut Vec<Diagnostic>) {
+        super::check_method_args(m, d)
+    }
+}
